@@ -44,6 +44,16 @@ def t4():
     t4_ovmb_consts.generate()
 
 
+def get_judge(ctx, pid):
+    """the compiled judge; if the model no longer compiles (e.g. a regenerated constant breaks a definition) that is a
+    broken obligation, reported as such instead of a machinery failure"""
+    from vlib.report import CheckBroken
+    try:
+        return oc.judge_exe()
+    except RuntimeError as e:
+        raise CheckBroken("%s OVMB: the Lean model / judge no longer builds against the regenerated constants" % pid, str(e)[-3000:])
+
+
 def proof_part(ctx, pid):
     res = proof.proof_stage(ctx, pid, gen=[t4], extra_targets=("ovmbjudge",))
     if res["ok"]:
@@ -135,7 +145,7 @@ def run_c06(ctx):
     t0 = time.time()
     res = proof_part(ctx, "C06")
     drv = oc.driver("io_drv")
-    judge = oc.judge_exe()
+    judge = get_judge(ctx, "C06")
     wd = oc.workdir(ctx, "c06")
     n = min(NPROC, 16)
     cases = gen(ctx, drv, wd, n)
@@ -171,7 +181,7 @@ def run_c07(ctx):
     t0 = time.time()
     res = proof_part(ctx, "C07")
     drv = oc.driver("io_drv")
-    judge = oc.judge_exe()
+    judge = get_judge(ctx, "C07")
     wd = oc.workdir(ctx, "c07")
     n = min(NPROC, 16)
     cases = gen(ctx, drv, wd, n)
@@ -206,7 +216,7 @@ def run_c18(ctx):
     t0 = time.time()
     res = proof_part(ctx, "C18")
     drv = oc.driver("io_drv")
-    judge = oc.judge_exe()
+    judge = get_judge(ctx, "C18")
     wd = oc.workdir(ctx, "c18")
     n = min(NPROC, 16)
     cases = gen(ctx, drv, wd, n)
@@ -249,7 +259,7 @@ def replay(ctx, pid):
     real reader in every configuration, judged against the model and the oracles like any mutant."""
     res = proof_part(ctx, pid)
     drv = oc.driver("io_drv")
-    judge = oc.judge_exe()
+    judge = get_judge(ctx, pid)
     wd = oc.workdir(ctx, "replay-" + pid.lower())
     raw = Path(ctx.replay).read_bytes()
     data, fa = None, -1
